@@ -28,6 +28,7 @@ class GenOpts(object):
         self.allow_unset = True
         self.unset_bias = (12, 15)    # 1/n of union arms / struct members are left unset
         self.allow_const_refs = True
+        self.tail_focus = 0           # 1/n of schemas end with a (struct ending in greedy, struct ending in that struct) pair
         self.const_ref_bias = 6      # 1/n of sizes / discriminators refer to a constant when one fits
         self.const_exprs = False      # constants / enumerators given as expressions over earlier names
         self.min_decls = 1
@@ -312,7 +313,37 @@ class _Builder(object):
                 self.add_struct()
         if not any(isinstance(d, (Struct, Union)) for d in self.decls):
             self.add_struct()
+        if self.o.tail_focus and self.o.allow_greedy and self.draw(st.integers(0, self.o.tail_focus - 1)) == 0:
+            self.add_tail_pair()
         return Schema(self.decls)
+
+    def add_tail_pair(self):
+        """An unlimited struct nested as the tail of another struct, with and without dynamic fields around it:
+        the composition in which static and dynamic end-padding rules meet (rare in unbiased generation)."""
+        def scalars(k, used):
+            out = []
+            for _ in range(k):
+                nm = self.draw(st.sampled_from([n for n in FIELD_NAMES if n not in used]))
+                used.add(nm)
+                out.append(Member(nm, self.draw(st.sampled_from(self.numeric_pool()))))
+            return out
+        inner_name, outer_name = self.fresh('S'), self.fresh('S')
+        used = {'g', 'tl', 'dd'}
+        inner = scalars(self.draw(st.integers(0, 2)), used)
+        elem = self.pick_type(DYNAMIC) if self.draw(st.booleans()) else self.draw(st.sampled_from(self.numeric_pool()))
+        inner.append(Member('g', 'bytes' if self.draw(st.integers(0, 3)) == 0 else elem, GREEDY))
+        self.decls.append(Struct(inner_name, inner))
+        self.stiff[inner_name] = UNLIMITED
+        self.vec[inner_name] = False
+        used = {'g', 'tl', 'dd'}
+        outer = scalars(self.draw(st.integers(1, 3)), used)
+        if self.draw(st.integers(0, 2)) == 0:
+            pos = self.draw(st.integers(0, len(outer)))
+            outer.insert(pos, Member('dd', self.draw(st.sampled_from(self.numeric_pool())), DYNARR))
+        outer.append(Member('tl', inner_name))
+        self.decls.append(Struct(outer_name, outer))
+        self.stiff[outer_name] = UNLIMITED
+        self.vec[outer_name] = False
 
 
 @st.composite
